@@ -248,7 +248,7 @@ def check_pins(prop, allow_axioms=()):
     with open(path) as f:
         src = f.read()
     names = re.findall(r"^Print Assumptions\s+([\w.']+)\s*\.", src, re.M)
-    checks = re.findall(r"^Check\s+\(?([\w.']+)", src, re.M)
+    checks = re.findall(r"^Check\s+\(([\w.']+)\s*:", src, re.M)
     missing = [n for n in names if n not in checks]
     if missing:
         raise Broken("pins", "theorems without a pinned statement: %s" % missing)
